@@ -96,8 +96,13 @@ class CoreGen:
                 op = r.choice(["SLOAD", "SLOAD", "TLOAD"])
                 self.count("sto:" + op)
                 return [("push", r.randrange(4)), op]
-            if k < 0.85:
+            if k < 0.8:
                 return [("push", r.choice(CONST))]
+            if k < 0.88:
+                # balances: of this account, of a literal account, of the (symbolic) caller
+                self.count("bal:read")
+                return r.choice([["SELFBALANCE"], [("push", r.choice([0x1000, 0x2000, 0x3000, 0x4000, 5])), "BALANCE"],
+                                 ["CALLER", "BALANCE"]])
             return [r.choice(["CALLER", "CALLVALUE", "ORIGIN", "ADDRESS", "CALLDATASIZE", "PC"])]
         k = r.random()
         if k < 0.15:
@@ -261,7 +266,16 @@ class CoreGen:
             out += self.expr(1) + [("push", roff), "MSTORE"]
         out += [("push", rsize), ("push", roff), ("push", asize), ("push", 0x100)]
         if op in ("CALL", "CALLCODE"):
-            out += [("push", 0)]
+            k = r.random()
+            if self.callee or k < 0.55:
+                out += [("push", 0)]
+            else:
+                # a value-bearing call (never from a callee: it may run in a static frame — known finding): a small
+                # literal, the balance boundary, or a symbolic amount; both the insufficient-funds branch and the
+                # transfer are explored
+                self.count("call:value")
+                out += r.choice([[("push", 1)], [("push", 5)], [("push", 1000)], [("push", 1 << 128)],
+                                 self.arg() + [("push", 0xFFFF), "AND"], ["CALLVALUE"]])
         out += [("push", to), ("push", r.choice([0, 0xFFFF, 1 << 40])), op]
         k = r.random()
         if k < 0.5:
@@ -505,6 +519,20 @@ def _logs(pe, ex):
     return "".join(out)
 
 
+BAL_ACCOUNTS = [0x1000, 0x2000, 0x3000, 0x4000, 5]
+
+
+def _balances(pe, ex):
+    """the non-zero balances of the scenario's accounts at the end of the path: `B<addr>=<value>;`"""
+    import z3
+    out = []
+    for a in BAL_ACCOUNTS:
+        v = int(pe.ev(z3.Select(ex.balance, z3.BitVecVal(a, 160))))
+        if v:
+            out.append(f"B{a:x}={v:x};")
+    return "".join(out)
+
+
 def impl_eval(sr, inputs):
     """the end states of the real run whose path conditions `inputs` satisfies, with their data evaluated (vlib.zeval)"""
     out = []
@@ -513,7 +541,7 @@ def impl_eval(sr, inputs):
         if not pe.satisfies(p.conds):
             continue
         data = pe.bytes_of(p.data) if p.data is not None else b""
-        out.append(f"{_kind(p)}@{p.ex.pc}:{(data or b'').hex()}:{_storage(pe, p.ex)}{_logs(pe, p.ex)}")
+        out.append(f"{_kind(p)}@{p.ex.pc}:{(data or b'').hex()}:{_storage(pe, p.ex)}{_logs(pe, p.ex)}{_balances(pe, p.ex)}")
     return "sat=" + (",".join(sorted(out)) if out else "-")
 
 
@@ -524,8 +552,13 @@ def _inputs(rng, g, nargs):
         near = [c + d for (c, j, _op) in g.conds if j == i for d in (-1, 0, 0, 1)]
         pool = near + [0, 1, 5, 7, (1 << 255) + 3, (1 << 256) - 1, rng.getrandbits(256), rng.getrandbits(16)]
         args.append(rng.choice(pool) % (1 << 256))
-    return D.Inputs(args=args, caller=rng.getrandbits(160), origin=rng.getrandbits(160), value=rng.choice([0, 1, rng.getrandbits(64)]),
-                    balances={})
+    amounts = [0, 0, 1, 4, 5, 6, 999, 1000, 1001, 1 << 64, (1 << 128) - 1, 1 << 128]
+    balances = {a: rng.choice(amounts) for a in BAL_ACCOUNTS if rng.random() < 0.7}
+    caller = rng.getrandbits(160)
+    if rng.random() < 0.3:
+        balances[caller] = rng.choice(amounts)
+    return D.Inputs(args=args, caller=caller, origin=rng.getrandbits(160), value=rng.choice([0, 1, rng.getrandbits(64)]),
+                    balances={a: v for a, v in balances.items() if v})
 
 
 def _canon(summary: str) -> str:
@@ -578,7 +611,7 @@ def compare_core(ctx, n):
             ctx.count("core:" + k, v)
         loop = rng.choice([1, 2, 2, 3])
         oracle = rng.choice(["unknown", "unknown", "sat"])
-        if (any(k in g.hist for k in ("sto:SSTORE", "sto:TSTORE")) and rng.random() < 0.1) or (callees and rng.random() < 0.25):
+        if ("call:value" not in g.hist and any(k in g.hist for k in ("sto:SSTORE", "sto:TSTORE")) and rng.random() < 0.1) or (callees and "call:value" not in g.hist and rng.random() < 0.25):
             oracle += "+static"
             ctx.count("core:static-frame")
         pre = ["nocode"] + [f"code {a:x} {c.hex()}" for a, c in sorted(callees.items())]
@@ -604,7 +637,8 @@ def compare_core(ctx, n):
         lines.append(f"run {code.hex()} {nargs} {loop} {depth} 20000 {oracle}")
         for x in ins:
             lines.append(f"eval {code.hex()} {nargs} {loop} {depth} 20000 {oracle} {','.join(f'{a:x}' for a in x.args)} "
-                         f"{x.caller:x} {x.origin:x} {x.value:x}")
+                         f"{x.caller:x} {x.origin:x} {x.value:x}"
+                         + (" " + ",".join(f"{a:x}:{v:x}" for a, v in sorted(x.balances.items())) if x.balances else ""))
     replies = iter(r for r in drv.ask(lines) if r != "ok")
     stale = []
     for (code, nargs, loop, depth, oracle, ins, callees) in cases:
